@@ -43,7 +43,7 @@ VARIABLES
     adoptret,   \* [Payloads -> "-" | "ok" | "raised"]
     sigint, shut,   \* BOOLEAN: SIGINT sent; shut: "none" | "called" | "returned"
     result,     \* [Runners -> [kind, cause]]  how accept() ended
-    xst,        \* [DOMAIN Execs -> "idle" | "called" | "started" | "finished" | "returned"]
+    xst,        \* [DOMAIN Execs -> "idle" | "called" | "started" | "finished" | "returned" | "aborted"]
     h           \* history: [stepafter, overlap, xbad, adoptbad, lost] booleans only the properties read
 
 vars == <<phase, guard, pst, starts, endhow, cleanleft, adoptret, sigint, shut, result, xst, h>>
@@ -209,6 +209,10 @@ XEnd(x) == /\ xst[x] = "started" /\ xst' = [xst EXCEPT ![x] = "finished"]
 \* the caller gets the very outcome; nothing else changes - in particular no failure state
 ExecRet(x) == /\ xst[x] = "finished" /\ xst' = [xst EXCEPT ![x] = "returned"]
               /\ UNCHANGED <<phase, guard, pst, starts, endhow, cleanleft, adoptret, sigint, shut, result, h>>
+\* the runtime terminates under an execute() whose payload has started and not ended: the payload
+\* has no outcome to hand over, the waiting caller is released with an exception of the framework
+ExecAbort(x) == /\ xst[x] = "started" /\ Triggered /\ xst' = [xst EXCEPT ![x] = "aborted"]
+                /\ UNCHANGED <<phase, guard, pst, starts, endhow, cleanleft, adoptret, sigint, shut, result, h>>
 
 Next ==
     \/ \E p \in Payloads : AdoptCall(p) \/ AdoptRet(p) \/ Discard(p) \/ Start(p) \/ Step(p)
@@ -216,7 +220,7 @@ Next ==
     \/ \E r \in Runners : AcceptCall(r) \/ RunningSet(r) \/ CloseBegin(r) \/ CloseEnd(r)
                        \/ \E res \in ResultFor(r) : AcceptRet(r, res)
     \/ SigintSend \/ ShutdownCall \/ ShutdownRet
-    \/ \E x \in DOMAIN Execs : ExecCall(x) \/ XStart(x) \/ XEnd(x) \/ ExecRet(x)
+    \/ \E x \in DOMAIN Execs : ExecCall(x) \/ XStart(x) \/ XEnd(x) \/ ExecRet(x) \/ ExecAbort(x)
 
 Fair == /\ \A p \in Payloads : WF_vars(Start(p)) /\ WF_vars(Cancelled(p)) /\ WF_vars(CleanupStep(p)) /\ WF_vars(AdoptRet(p))
         /\ \A r \in Runners : WF_vars(RunningSet(r)) /\ WF_vars(CloseBegin(r)) /\ WF_vars(CloseEnd(r))
@@ -253,7 +257,7 @@ ExactlyOnceLive == \A p \in Payloads : (pst[p] = "submitted" /\ phase[1] = "runn
 
 (* ---- C10 ---- *)
 ExecNotAFailure == \A x \in DOMAIN Execs : xst[x] \in {"finished", "returned"} => TRUE
-ExecLive == \A x \in DOMAIN Execs : (xst[x] = "called") ~> (xst[x] = "returned")
+ExecLive == \A x \in DOMAIN Execs : (xst[x] = "called") ~> (xst[x] \in {"returned", "aborted"})
 
 (* ---- C12 ---- *)
 AtMostOneAccepting == Cardinality({r \in Runners : phase[r] \in {"starting", "running", "closing", "closed"}}) <= 1
